@@ -6,12 +6,14 @@ import (
 	"fmt"
 	"hash/maphash"
 	"os"
+	"runtime/debug"
 	"sort"
 	"strings"
 	"sync"
 	"sync/atomic"
 	"time"
 
+	"verif/engine/bfs"
 	"verif/engine/choice"
 	"verif/engine/evid"
 )
@@ -143,6 +145,7 @@ func exploreChoiceOpts(r *evid.Run, name string, bound int, dl time.Time, worker
 		panic("unknown scenario " + name)
 	}
 	scen, newLocal := mk()
+	scen = guardScenario(r.ID, scen)
 	t0 := time.Now()
 	res := choice.Explore(scen, choice.Options{Bound: bound, Deadline: dl, NewLocal: newLocal, Workers: workers})
 	r.Add("evaluations", res.Executions)
@@ -246,6 +249,7 @@ func ReplayFile(path string) int {
 			return 2
 		}
 		scen, newLocal := mk()
+		scen = guardScenario(rp.Property, scen)
 		var loc any
 		if newLocal != nil {
 			loc = newLocal()
@@ -291,6 +295,93 @@ func safely(f func()) (panicked bool, val any) {
 	}()
 	f()
 	return
+}
+
+// libraryPanicSite inspects the stack of a panic being recovered: if the frame the panic comes from (after the
+// runtime's and the standard library's own frames) belongs to the library under test or to one of its dependencies,
+// the library panicked on what the harness gave it - a violation of whatever property is being checked, never a
+// harness fault. A panic raised in harness code stays a harness error.
+func libraryPanicSite(stack []byte) (string, bool) {
+	lines := strings.Split(string(stack), "\n")
+	seenPanic := false
+	for i := 0; i+1 < len(lines); i++ {
+		fn := strings.TrimSpace(lines[i])
+		if strings.HasPrefix(fn, "panic(") {
+			seenPanic = true
+			continue
+		}
+		if !seenPanic || !strings.HasPrefix(lines[i+1], "\t") {
+			continue
+		}
+		file := strings.TrimSpace(lines[i+1])
+		switch {
+		case strings.HasPrefix(fn, "runtime.") || strings.HasPrefix(fn, "runtime/"):
+			continue
+		case strings.HasPrefix(fn, "verif/") || strings.HasPrefix(fn, "main."):
+			return "", false
+		case strings.HasPrefix(fn, "github.com/veraison/psatoken/verifrt"):
+			return "", false
+		case strings.HasPrefix(fn, "github.com/"):
+			if j := strings.Index(fn, "("); j > 0 {
+				fn = fn[:j]
+			}
+			if j := strings.LastIndex(fn, "/"); j >= 0 {
+				fn = fn[j+1:]
+			}
+			_ = file
+			return fn, true
+		default:
+			// standard library frame (reflect, encoding/json, crypto, ...): keep looking for who called it
+			continue
+		}
+	}
+	return "", false
+}
+
+// guardScenario turns a panic of the library inside a scenario into a recorded violation.
+func guardScenario(prop string, scen choice.Scenario) choice.Scenario {
+	return func(c *choice.Ctx) {
+		defer func() {
+			x := recover()
+			if x == nil {
+				return
+			}
+			if he, ok := x.(choice.HarnessError); ok {
+				panic(he)
+			}
+			if site, lib := libraryPanicSite(debug.Stack()); lib {
+				attachHook(nil)
+				c.Failf(prop+":library-panic:"+site, "the library panicked: %v", x)
+				return
+			}
+			panic(x)
+		}()
+		scen(c)
+	}
+}
+
+// guardSystem: the same for the BFS systems.
+func guardSystem(prop string, sys bfs.System) bfs.System {
+	run := sys.Run
+	sys.Run = func(hist []int) (out bfs.Outcome) {
+		defer func() {
+			x := recover()
+			if x == nil {
+				return
+			}
+			if he, ok := x.(choice.HarnessError); ok {
+				panic(he)
+			}
+			if site, lib := libraryPanicSite(debug.Stack()); lib {
+				attachHook(nil)
+				out = bfs.Outcome{Key: fmt.Sprint("library-panic", hist), Obs: "panic", Fails: []bfs.Failure{{Sig: prop + ":library-panic:" + site, Detail: fmt.Sprintf("the library panicked: %v", x)}}}
+				return
+			}
+			panic(x)
+		}()
+		return run(hist)
+	}
+	return sys
 }
 
 // hookWorkers: the instrumentation hook is process-global, so scenarios that attach a
